@@ -140,6 +140,11 @@ func (c *Ctx) path(v ssa.Value, env Env, d int) string {
 	case *ssa.UnOp:
 		switch x.Op {
 		case token.MUL:
+			if al, ok := x.X.(*ssa.Alloc); ok {
+				if src := decodedFrom(al); src != nil {
+					return "decoded(" + c.path(src, env, d+1) + ")"
+				}
+			}
 			return c.path(x.X, env, d)
 		case token.NOT:
 			s := c.path(x.X, env, d+1)
@@ -656,4 +661,35 @@ func isInduction(v ssa.Value) bool {
 		}
 	}
 	return false
+}
+
+// decodedFrom: for a local variable of basic type that is filled by exactly one json.Unmarshal(src, &v)
+// and never assigned otherwise, returns src ("the value decoded from src").
+func decodedFrom(al *ssa.Alloc) ssa.Value {
+	if _, ok := al.Type().Underlying().(*types.Pointer).Elem().Underlying().(*types.Basic); !ok {
+		return nil
+	}
+	var src ssa.Value
+	n := 0
+	for _, r := range *al.Referrers() {
+		switch y := r.(type) {
+		case *ssa.Store:
+			if y.Addr == ssa.Value(al) {
+				return nil
+			}
+		case *ssa.MakeInterface:
+			for _, rr := range *y.Referrers() {
+				if cl, ok := rr.(*ssa.Call); ok {
+					if g := cl.Call.StaticCallee(); g != nil && (g.String() == "encoding/json.Unmarshal" || g.String() == "github.com/go-jose/go-jose/v3/json.Unmarshal") && len(cl.Call.Args) == 2 && cl.Call.Args[1] == ssa.Value(y) {
+						src = cl.Call.Args[0]
+						n++
+					}
+				}
+			}
+		}
+	}
+	if n == 1 {
+		return src
+	}
+	return nil
 }
